@@ -201,5 +201,6 @@ func runC02(c *Ctx) {
 	runPushPullScenarios(c)
 	c02EndToEnd(c)
 	runPairDialerSecond(c)
+	runPairPeerLeavesDuringAttachedHook(c)
 	runPushBurst(c)
 }
